@@ -1,5 +1,7 @@
 import Infretis.Model.Proto
 import Infretis.Model.Geom
+import Infretis.Model.GeomCtor
+import Infretis.Model.GeomFlow
 open Infretis Infretis.Proto Infretis.Geom
 
 /-
@@ -12,6 +14,20 @@ Line protocol of the C20 driver.
      pos, vel := length-prefixed list of rationals, 3 per atom
      box  := "none" | length-prefixed list of rationals
      value := "ok n r₁ … rₙ" | "err:index" | "nan"
+  (extension pass; variant may also be `cur` = Variant.current)
+  pbc   <dx> <dy> <dz> <box>                → "ok x y z nan?" | "err:index"      (pbcDist, box length-prefixed)
+  pfull <var> <puckering op> <pos> <vel> <box> → value of puckeringFull ([H1,H2,Q3,ZZ,nn])
+  lens  <op>                                → "<outLen> <preLen> <velocityDependent 0|1>"
+  ctor  <kind> <idx> <per 0|1> <dim x<hex>> → constructor called directly (ctorDistance …)
+  create <cls x<hex>> <idx|absent> <per absent|0|1> <dim absent|x<hex>>  → createOrderParameter
+     idx  := scalar <sc> | seq n <sc>…      sc := N | B0 | B1 | I<int> | F<rat> | T<hex>
+     answer := "external" | "err:<Kind>" | "obj <kind> <idx> p=<0|1|-> dim=<n|-> vd=<0|1> op=<OP tokens|none>"
+  corder <var> <op|noop> <velrev> <pos> <vel> <box> <xyz?> <vel?> <box?> <fxyz?> <fvel?> <fbox?>
+                                            → "<value|err:noorder> | read=<0|1> | <pos> | <vel> | <box>"
+     x? := none | length-prefixed list
+  prev  <asis|rep> <var> <op vd|noop> <revV> <maxlen none|n> <nframes> (<pos> <vel> <box> <velrev> <order list>)…
+                                            → "err:index" | "ok n" then per frame " | <velrev> <order> <pos> <vel> <box>"
+     order := S n r… | R n r… | NaN
 -/
 
 def toV3s : List Rat → Option (List V3)
@@ -71,7 +87,259 @@ def parseSys (toks : List String) : Option Sys :=
     | none => none
   | none => none
 
-def handle (toks : List String) : String :=
+def parseVar? (v : String) : Option Variant :=
+  if v = "asis" then some .asIs else if v = "rep" then some .repaired
+  else if v = "cur" then some Variant.current else none
+
+def showV3s (l : List V3) : String :=
+  showList showRat (l.foldr (fun v acc => v.x :: v.y :: v.z :: acc) [])
+
+def showBox : Option (List Rat) → String
+  | none => "none"
+  | some b => showList showRat b
+
+/-- optional length-prefixed list of rationals: `none` or `n r…` -/
+def takeOptRats : List String → Option (Option (List Rat) × List String)
+  | "none" :: rest => some (none, rest)
+  | toks => (takeList parseRat? toks).map (fun (l, rest) => (some l, rest))
+
+def takeOptV3s (toks : List String) : Option (Option (List V3) × List String) :=
+  match takeOptRats toks with
+  | some (none, rest) => some (none, rest)
+  | some (some l, rest) => (toV3s l).map (fun v => (some v, rest))
+  | none => none
+
+def takeV3s (toks : List String) : Option (List V3 × List String) :=
+  match takeList parseRat? toks with
+  | some (l, rest) => (toV3s l).map (fun v => (v, rest))
+  | none => none
+
+def parseScalar? (t : String) : Option Scalar :=
+  if t = "N" then some .none
+  else if t = "B0" then some (.bool false)
+  else if t = "B1" then some (.bool true)
+  else
+    let body := (t.drop 1).toString
+    match t.toList.head? with
+    | some 'I' => (parseInt? body).map .int
+    | some 'F' => (parseRat? body).map .float
+    | some 'T' => (unhexStr body).map .str
+    | _ => none
+
+def takeIdx : List String → Option (IdxVal × List String)
+  | "scalar" :: t :: rest => (parseScalar? t).map (fun v => (.scalar v, rest))
+  | "seq" :: rest => (takeList parseScalar? rest).map (fun (l, r) => (.seq l, r))
+  | _ => none
+
+def showScalar : Scalar → String
+  | .none => "N"
+  | .bool b => if b then "B1" else "B0"
+  | .int z => "I" ++ toString z
+  | .float q => "F" ++ showRat q
+  | .str s => "T" ++ hexStr s
+
+def showIdx : IdxVal → String
+  | .scalar v => "scalar " ++ showScalar v
+  | .seq l => "seq " ++ showList showScalar l
+
+def showB (b : Bool) : String := if b then "1" else "0"
+
+def showOP : OP → String
+  | .distance a b p => s!"distance {a} {b} {showB p}"
+  | .distancevel a b p => s!"distancevel {a} {b} {showB p}"
+  | .position a b => s!"position {a} {b}"
+  | .velocity a d => s!"velocity {a} {d}"
+  | .dihedral a b c d p => s!"dihedral {a} {b} {c} {d} {showB p}"
+  | .puckering a b c d e f p => s!"puckering {a} {b} {c} {d} {e} {f} {showB p}"
+
+def showCtorErr : CtorErr → String
+  | .typeError => "err:TypeError"
+  | .valueError => "err:ValueError"
+  | .notImplemented => "err:NotImplementedError"
+
+def showObj (o : Obj) : String :=
+  let body := match o with
+    | .base => "base - p=- dim=-"
+    | .distance i p => s!"distance {showIdx i} p={showB p} dim=-"
+    | .distancevel i p => s!"distancevel {showIdx i} p={showB p} dim=-"
+    | .position i => s!"position {showIdx i} p=0 dim=-"
+    | .velocity i d => s!"velocity {showIdx i} p=- dim={d}"
+    | .dihedral l p => s!"dihedral ints {showList (fun (z : Int) => toString z) l} p={showB p} dim=-"
+    | .puckering l p => s!"puckering ints {showList (fun (z : Int) => toString z) l} p={showB p} dim=-"
+  let opS := match o.toOP with
+    | some op => showOP op
+    | none => "none"
+  s!"obj {body} vd={showB o.velocityDependent} op={opS}"
+
+def showCreated : Except CtorErr Created → String
+  | .error e => showCtorErr e
+  | .ok .external => "external"
+  | .ok (.obj o) => showObj o
+
+def showCtor : Except CtorErr Obj → String
+  | .error e => showCtorErr e
+  | .ok o => showObj o
+
+def xstr? (t : String) : Option String :=
+  match t.toList.head? with
+  | some 'x' => unhexStr (t.drop 1).toString
+  | _ => none
+
+def showOrderVal : OrderVal → String
+  | .stored v => "S " ++ showList showRat v
+  | .recomputed v => "R " ++ showList showRat v
+  | .recomputedNan => "NaN"
+
+/-- one frame of `prev`: pos vel box velrev order -/
+def takeFrame (toks : List String) : Option (PFrame × List String) :=
+  match takeV3s toks with
+  | some (pos, r1) =>
+    match takeV3s r1 with
+    | some (vel, r2) =>
+      match takeOptRats r2 with
+      | some (box, vr :: r3) =>
+        match parseBool? vr, takeList parseRat? r3 with
+        | some b, some (ord, r4) => some (⟨⟨pos, vel, box⟩, b, .stored ord⟩, r4)
+        | _, _ => none
+      | _ => none
+    | none => none
+  | none => none
+
+def takeFrames : Nat → List String → Option (List PFrame × List String)
+  | 0, toks => some ([], toks)
+  | n + 1, toks =>
+    match takeFrame toks with
+    | some (f, rest) => (takeFrames n rest).map (fun (fs, r) => (f :: fs, r))
+    | none => none
+
+def showFrame (f : PFrame) : String :=
+  s!" | {showB f.velRev} {showOrderVal f.order} {showV3s f.sys.pos} {showV3s f.sys.vel} {showBox f.sys.box}"
+
+def showCOVal : Except COErr (List Rat) → String
+  | .ok xs => "ok " ++ showList showRat xs
+  | .error (.op .index) => "err:index"
+  | .error (.op .nan) => "nan"
+  | .error .noOrderFunction => "err:noorder"
+
+def takeOptOp : List String → Option (Option OP × List String)
+  | "noop" :: rest => some (none, rest)
+  | toks => (parseOp toks).map (fun (op, rest) => (some op, rest))
+
+def handleCorder (var : Variant) (toks : List String) : String :=
+  match takeOptOp toks with
+  | some (op, vr :: r0) =>
+    match parseBool? vr, takeV3s r0 with
+    | some velRev, some (pos, r1) =>
+      match takeV3s r1 with
+      | some (vel, r2) =>
+        match takeOptRats r2 with
+        | some (box0, r3) =>
+          match takeOptV3s r3 with
+          | some (xyz, r4) =>
+            match takeOptV3s r4 with
+            | some (v, r5) =>
+              match takeOptRats r5 with
+              | some (box, r6) =>
+                match takeOptV3s r6 with
+                | some (fx, r7) =>
+                  match takeOptV3s r7 with
+                  | some (fv, r8) =>
+                    match takeOptRats r8 with
+                    | some (fb, []) =>
+                      let r := calculateOrderFull var op ⟨pos, vel, box0, velRev⟩ xyz v box ⟨fx, fv, fb⟩
+                      s!"{showCOVal r.val} | read={showB r.read} | {showV3s r.sys.pos} | {showV3s r.sys.vel} | {showBox r.sys.box}"
+                    | _ => "bad-op"
+                  | none => "bad-op"
+                | none => "bad-op"
+              | none => "bad-op"
+            | none => "bad-op"
+          | none => "bad-op"
+        | none => "bad-op"
+      | none => "bad-op"
+    | _, _ => "bad-op"
+  | _ => "bad-op"
+
+def handlePrev (rv : ReverseVariant) (var : Variant) (toks : List String) : String :=
+  let opvd : Option (Option (OP × Bool) × List String) :=
+    match toks with
+    | "noop" :: rest => some (none, rest)
+    | _ =>
+      match parseOp toks with
+      | some (op, vd :: rest) => (parseBool? vd).map (fun b => (some (op, b), rest))
+      | _ => none
+  match opvd with
+  | some (ofn, rvv :: ml :: nf :: rest) =>
+    let maxlen : Option (Option Nat) := if ml = "none" then some none else (parseNat? ml).map some
+    match parseBool? rvv, maxlen, parseNat? nf with
+    | some revV, some maxlen, some n =>
+      match takeFrames n rest with
+      | some (frames, []) =>
+        match pathReverse rv var ofn revV maxlen frames with
+        | .error _ => "err:index"
+        | .ok fs => "ok " ++ toString fs.length ++ String.join (fs.map showFrame)
+      | _ => "bad-op"
+    | _, _, _ => "bad-op"
+  | _ => "bad-op"
+
+def handleNew (toks : List String) : Option String :=
+  match toks with
+  | "pbc" :: dx :: dy :: dz :: rest =>
+    match parseRat? dx, parseRat? dy, parseRat? dz, takeList parseRat? rest with
+    | some x, some y, some z, some (b, []) =>
+      match pbcDist ⟨x, y, z⟩ b with
+      | .ok w => some s!"ok {showRat w.v.x} {showRat w.v.y} {showRat w.v.z} {showB w.nan}"
+      | .error _ => some "err:index"
+    | _, _, _, _ => some "bad-op"
+  | "pfull" :: v :: rest =>
+    match parseVar? v, parseOp rest with
+    | some var, some (.puckering a b c d e f p, rest) =>
+      match parseSys rest with
+      | some s => some (showVal (puckeringFull var s a b c d e f p))
+      | none => some "bad-op"
+    | _, _ => some "bad-op"
+  | "lens" :: rest =>
+    match parseOp rest with
+    | some (op, []) => some s!"{op.outLen} {op.preLen} {showB op.velocityDependent}"
+    | _ => some "bad-op"
+  | "ctor" :: kind :: rest =>
+    match takeIdx rest with
+    | some (idx, [per, dim]) =>
+      match parseBool? per, xstr? dim with
+      | some p, some d =>
+        if kind = "distance" then some (showCtor (ctorDistance idx p))
+        else if kind = "distancevel" then some (showCtor (ctorDistancevel idx p))
+        else if kind = "position" then some (showCtor (ctorPosition idx p))
+        else if kind = "velocity" then some (showCtor (ctorVelocity idx d))
+        else if kind = "dihedral" then some (showCtor (ctorDihedral idx p))
+        else if kind = "puckering" then some (showCtor (ctorPuckering idx p))
+        else some "bad-op"
+      | _, _ => some "bad-op"
+    | _ => some "bad-op"
+  | "create" :: cls :: rest =>
+    let idx : Option (Option IdxVal × List String) :=
+      match rest with
+      | "absent" :: r => some (none, r)
+      | _ => (takeIdx rest).map (fun (i, r) => (some i, r))
+    match xstr? cls, idx with
+    | some c, some (i, [per, dim]) =>
+      let p : Option (Option Bool) := if per = "absent" then some none else (parseBool? per).map some
+      let d : Option (Option String) := if dim = "absent" then some none else (xstr? dim).map some
+      match p, d with
+      | some p, some d => some (showCreated (createOrderParameter ⟨c, i, p, d⟩))
+      | _, _ => some "bad-op"
+    | _, _ => some "bad-op"
+  | "corder" :: v :: rest =>
+    match parseVar? v with
+    | some var => some (handleCorder var rest)
+    | none => some "bad-op"
+  | "prev" :: r :: v :: rest =>
+    let rv : Option ReverseVariant := if r = "asis" then some .asIs else if r = "rep" then some .repaired else none
+    match rv, parseVar? v with
+    | some rv, some var => some (handlePrev rv var rest)
+    | _, _ => some "bad-op"
+  | _ => none
+
+def handleOld (toks : List String) : String :=
   match toks with
   | ["rint", x] =>
     match parseRat? x with
@@ -82,8 +350,7 @@ def handle (toks : List String) : String :=
     | some d, some l => if compNan d l then "nan" else showRat (pbcWrap d l)
     | _, _ => "bad-op"
   | "calc" :: v :: rest =>
-    let var : Option Variant := if v = "asis" then some .asIs else if v = "rep" then some .repaired else none
-    match var, parseOp rest with
+    match parseVar? v, parseOp rest with
     | some var, some (op, rest) =>
       match parseSys rest with
       | some s =>
@@ -92,5 +359,10 @@ def handle (toks : List String) : String :=
       | none => "bad-op"
     | _, _ => "bad-op"
   | _ => "bad-op"
+
+def handle (toks : List String) : String :=
+  match handleNew toks with
+  | some r => r
+  | none => handleOld toks
 
 def main : IO Unit := mainWith handle
